@@ -220,6 +220,32 @@ theorem periodic_bracket (T : (ι → α) → (ι → α)) (hT : MonoShift T 1) 
     rw [Function.iterate_succ_apply']
     have : T^[p] hvec = fun j => hvec j + p * g := funext ih
     rw [this, hT.shift, hg i]; push_cast; ring
+
+/-- `T h = h + g` ⇒ `T^n h = h + n g` -/
+theorem iterate_solution (T : (ι → α) → (ι → α)) (hT : MonoShift T 1) (hvec : ι → α) (g : α)
+    (hg : ∀ i, T hvec i = hvec i + g) (n : Nat) (i : ι) : T^[n] hvec i = hvec i + n * g := by
+  induction n generalizing i with
+  | zero => simp
+  | succ p ih =>
+    rw [Function.iterate_succ_apply']
+    have : T^[p] hvec = fun j => hvec j + p * g := funext ih
+    rw [this, hT.shift, hg i]; push_cast; ring
+
+/-- **what the gain means**: if `(g, h)` solves `T h = h + g`, the n-fold iterate of `T` from *any* vector `V` (for the
+    optimality operator: the optimal expected total reward over n steps with terminal reward `V`) is `n·g + h` up to the
+    fixed offsets `min(V − h)`, `max(V − h)` — so the n-step value per step tends to `g` at rate `sp(V − h)/n`. -/
+theorem nstep_bracket (T : (ι → α) → (ι → α)) (hT : MonoShift T 1) (hvec : ι → α) (g : α)
+    (hg : ∀ i, T hvec i = hvec i + g) (V : ι → α) (n : Nat) (i : ι) :
+    hvec i + n * g + vmin (fun j => V j - hvec j) ≤ T^[n] V i ∧
+    T^[n] V i ≤ hvec i + n * g + vmax (fun j => V j - hvec j) := by
+  have hn := hT.iterate n
+  constructor
+  · have := hn.mono (fun j => hvec j + vmin (fun j => V j - hvec j)) V
+      (fun j => by have := vmin_le (fun j => V j - hvec j) j; linarith) i
+    rw [hn.shift, iterate_solution T hT hvec g hg n i] at this; linarith
+  · have := hn.mono V (fun j => hvec j + vmax (fun j => V j - hvec j))
+      (fun j => by have := le_vmax (fun j => V j - hvec j) j; linarith) i
+    rw [hn.shift, iterate_solution T hT hvec g hg n i] at this; linarith
 end MdpaxV
 
 namespace MdpaxV
